@@ -153,8 +153,8 @@ func judge(t *testing.T, c Case) (v harness.Verdict) {
 				break
 			}
 			cur.adds = append(cur.adds, e)
-			if e.Status != 0 && e.Status != int(codes.ResourceExhausted) && e.Status != int(codes.Canceled) {
-				cur.fatal = true
+			if e.Status != 0 && e.Status != int(codes.ResourceExhausted) && e.CancelReason == "" {
+				cur.fatal = true // incl. a Canceled / DeadlineExceeded status that comes from the backend while the migrator's contexts are alive
 			}
 			if e.Served == 0 && e.Status == 0 {
 				cur.fatal = true // a request without leaves (from an empty get-entries page): the backend refuses it (InvalidArgument)
@@ -514,6 +514,13 @@ func classify(c *Case, o *outcome, tr []truth, v *harness.Verdict) {
 				cl = "dst:quota-reply"
 			case codes.Canceled:
 				cl = "dst:cancel-at-add"
+				if e.CancelReason == "" {
+					cl = "dst:canceled-status-from-backend"
+				}
+			case codes.DeadlineExceeded:
+				cl = "dst:deadline-status-from-backend"
+			case codes.Code(fatalWrappedCancel):
+				cl = "dst:wrapped-context-canceled-from-backend"
 			default:
 				cl = "dst:fatal-reply"
 			}
